@@ -52,6 +52,7 @@ func C14(p *engine.Prog, r *engine.Report) {
 					continue
 				}
 				fns = append(fns, f)
+				r.Fn(engine.FuncName(f))
 			}
 		}
 	}
